@@ -148,7 +148,13 @@ def check_iterations(ctx: core.Ctx, g: GenInfo, rule="GEN-ITER"):
             continue
         n += 1
         segs = lay.segs
-        role = segs[0][1] if len(segs) == 1 and segs[0][0] == "SORT" else None
+        role = None
+        if len(segs) == 1:
+            sg = segs[0]
+            while sg[0] in ("REV", "PRIME"):
+                sg = sg[1]
+            if sg[0] == "SORT":
+                role = sg[1]
         if role is None:
             continue
         okk = lay == want_layout(role) if role in CANON_KEY else True
